@@ -107,6 +107,8 @@ def judge(plan, outcome):
                          duplicated=d["structure"], **env))
     # (3) gene reads only x k: linear
     d = m["dup_gene"]
+    if d.get("exc"):
+        vs.append(_v("sample with multiplied gene reads failed", exc=d["exc"], **env))
     if not d.get("exc"):
         for k, v in d["rc"]:
             want = plan["k"] * b[tuple(k)]
@@ -116,6 +118,9 @@ def judge(plan, outcome):
                 break
     # (4) delivery path does not matter
     d = m["path"]
+    if d.get("exc"):
+        vs.append(_v("a sample that is normalised through one delivery path is refused through another",
+                     exc=d["exc"], **env))
     if not d.get("exc"):
         for k, v in d["rc"]:
             if abs(v - b[tuple(k)]) > REL * max(1.0, abs(v)):
